@@ -508,6 +508,32 @@ def job_hier_direct(k=1, h=1, timeout_q=120.0):
 # lemmas: the certificate implies global optimality (implementation independent; proved in every run)
 
 
+def job_dtype():
+    """CONCRETE witness: the operators on whole-valued inputs stored as integer arrays give what they give on the same values stored as
+    floats (and that is the minimiser, by the replay oracle) -- an output array must not inherit an integer dtype"""
+    res = {"paths": 0, "queries": 0, "obligations": [], "violations": [], "validated": 0, "witnesses": 0, "samples": []}
+    pg = loader.real("sparse._prox_grad")
+    cases = [("hier", dict(V=[[-4]], U=[[3]], a=0.0, M=0.5, groups=None)), ("hier", dict(V=[[3, -1]], U=[[5, -2, 1]], a=1.0, M=0.25, groups=None)),
+             ("hier", dict(V=[[2], [1]], U=[[4, 1], [-3, 2]], a=0.5, M=0.75, groups=[[0, 1]])), ("lasso", dict(W=[[3, 4], [1, 0]], a=1.0, groups=None)),
+             ("lasso", dict(W=[[3], [4], [2]], a=1.0, groups=[[0, 1], [2]]))]
+    for kind, c in cases:
+        res["paths"] += 1
+        with np.errstate(all="ignore"):
+            if kind == "hier":
+                f = (lambda V, U: pg.mlp_prox_grad(V, U, c["a"], c["M"])) if c["groups"] is None else (lambda V, U: pg.group_mlp_prox_grad(c["groups"], V, U, c["a"], c["M"]))
+                oi = f(np.array(c["V"], dtype=int), np.array(c["U"], dtype=int))
+                of = f(np.array(c["V"], dtype=float), np.array(c["U"], dtype=float))
+            else:
+                f = (lambda W: (pg.linear_prox_grad(W, c["a"]),)) if c["groups"] is None else (lambda W: (pg.group_linear_prox_grad(c["groups"], W, c["a"]),))
+                oi, of = f(np.array(c["W"], dtype=int)), f(np.array(c["W"], dtype=float))
+        ok = all(np.allclose(np.asarray(a, dtype=float), np.asarray(b, dtype=float), rtol=1e-12, atol=1e-12) for a, b in zip(oi, of))
+        res["obligations"].append({"name": f"dtype/{kind}/{c}: integer-stored inputs give the result of the same values stored as floats", "verdict": "unsat" if ok else "sat", "how": "concrete run"})
+        if not ok and not res["violations"]:
+            res["violations"].append({"signature": f"{PROP}:{kind}:integer-inputs", "what": f"{kind} prox on integer-stored inputs {c} differs from the result on the same values as floats (an output inherits the integer dtype)",
+                                      "replay": {"kind": "dtype"}})
+    return res
+
+
 def job_lemmas(timeout_q=60.0):
     R = z3.Real
     res = {"paths": 1, "queries": 0, "obligations": [], "violations": [], "validated": 0, "witnesses": 0, "samples": []}
@@ -596,6 +622,8 @@ def _obj_lasso(z, w, a):
 
 
 def replay(rep, verbose=False):
+    if rep.get("kind") == "dtype":
+        return bool(job_dtype()["violations"])
     pg = loader.real("sparse._prox_grad")
     model = {k: Fraction(v) for k, v in rep.get("model", {}).items()}
     rng = np.random.default_rng(0)
@@ -667,7 +695,7 @@ def replay(rep, verbose=False):
 
 
 def jobs(tier):
-    out = [{"name": "lemmas", "target": "checks.c05:job_lemmas", "kwargs": {}, "timeout": 600}]
+    out = [{"name": "lemmas", "target": "checks.c05:job_lemmas", "kwargs": {}, "timeout": 600}, {"name": "dtype", "target": "checks.c05:job_dtype", "kwargs": {}, "timeout": 120}]
     q = tier == "quick"
     lasso_shapes = [(1, 1), (1, 2), (2, 2)] if q else [(1, 1), (1, 2), (2, 2), (3, 2), (2, 3), (1, 3)]
     for d, h in lasso_shapes:
